@@ -295,6 +295,9 @@ def generate(run_seed, deep=False):
             if k in evaluated and rec["api"] in LAYOUT_FREE and sc.random() < 0.3:
                 rec["args"] = relayout(rec["args"])          # the same matrix in the other memory layout
                 rec["relayout"] = True
+            if k in evaluated and rec["seed"] is not None and rec["seed"] != "default" and sc.random() < 0.2 and \
+                    rec["api"] in ("nd.sample", "gen.intervention_targets") + LAYOUT_FREE:
+                rec["posseed"] = True                          # the same call with the seed passed positionally
             if k in evaluated and rec["api"] in ("lganm.sample", "anm.sample") and sc.random() < 0.25:
                 for kind in ("do", "shift", "noise"):          # equal dicts, filled in another order
                     v = rec["args"].get(kind)
@@ -412,7 +415,7 @@ def relayout(j):
 
 def literal(rec):
     """The same call with no reference to world objects (for the pristine evaluation)."""
-    r = {k: v for k, v in rec.items() if k not in ("c", "sig", "on_shared", "relayout", "reordered")}
+    r = {k: v for k, v in rec.items() if k not in ("c", "sig", "on_shared", "relayout", "reordered", "posseed")}
     if "m" in r:
         r["m"] = dict(r["m"], id=None)
     return r
@@ -437,8 +440,8 @@ def variant(rec):
 
 
 def same_call(a, b):
-    ka = {k: v for k, v in a.items() if k != "c"}
-    kb = {k: v for k, v in b.items() if k != "c"}
+    ka = {k: v for k, v in a.items() if k not in ("c", "posseed")}
+    kb = {k: v for k, v in b.items() if k not in ("c", "posseed")}
     return ka == kb
 
 
@@ -617,6 +620,8 @@ def oracles(w, pristine_budget):
                     w.probes["pair.other_memory_layout"] += 1
                 if eb["rec"].get("reordered") != ea["rec"].get("reordered"):
                     w.probes["pair.other_dict_insertion_order"] += 1
+                if eb["rec"].get("posseed") != ea["rec"].get("posseed"):
+                    w.probes["pair.seed_passed_positionally"] += 1
                 if not eb["ok"]:
                     w.probes["pair.exception_outcome"] += 1
             else:
@@ -684,7 +689,8 @@ REQUIRED_PROBES = ["pair.nontrivial", "pair.seed0", "pair.sep.reseed", "pair.sep
                    "pair.sep.failed_seeded_call", "pair.sep.entropy", "pair.sep.py_random", "pair.sep.setstate",
                    "pair.sep.intervened_call_on_shared_model", "pair.different_clients", "pair.numpy_integer_seed", "pair.sep.failed_call_on_same_model",
                    "pair.seed>=2**32", "pair.sep.caller_scribbled_on_a_returned_object",
-                   "pair.seed_sequence_object_reused", "pair.other_memory_layout", "pair.other_dict_insertion_order"] + \
+                   "pair.seed_sequence_object_reused", "pair.other_memory_layout", "pair.other_dict_insertion_order",
+                   "pair.seed_passed_positionally"] + \
                   ["api:" + a for a in APIS] + ["noise:" + n for n in G.NOISE_FACTORIES] + \
                   ["nd:" + a for a in SAMPLERS] + ["nd.on_model_with_seeded_history", "nd:gen.dag_full",
                                                      "nd:gen.dag_avg_deg", "pair.default_seed_argument_omitted"]
